@@ -795,6 +795,12 @@ func runC13Mand(c *Ctx) {
 				if mentions(s.Cond) && isErrCall(s.Body) > 0 {
 					hits = append(hits, hit{s, append([]ast.Node(nil), stack[:len(stack)-1]...)})
 				}
+				// `if x, ok := <assigned>.(T); ok { ... } else ...`: a type switch written as assertions
+				if as, ok := s.Init.(*ast.AssignStmt); ok && len(as.Rhs) == 1 {
+					if ta, ok := ast.Unparen(as.Rhs[0]).(*ast.TypeAssertExpr); ok && ta.Type != nil && mentionsIn(ta.X, assignedAny) && isErrCall(s) > 0 {
+						hits = append(hits, hit{s, append([]ast.Node(nil), stack[:len(stack)-1]...)})
+					}
+				}
 			case *ast.TypeSwitchStmt:
 				if mentionsIn(s.Assign, assignedAny) && isErrCall(s.Body) > 0 {
 					hits = append(hits, hit{s, append([]ast.Node(nil), stack[:len(stack)-1]...)})
